@@ -39,4 +39,14 @@ def main():
 
 
 if __name__ == "__main__":
-    sys.exit(main())
+    try:
+        rc = main()
+    except SystemExit:
+        raise
+    except BaseException as e:  # noqa  - a crash of the machinery is never a verdict about the library
+        import traceback
+
+        traceback.print_exc()
+        print(f"HARNESS-ERROR {type(e).__name__}: {str(e)[:300]}")
+        rc = 2
+    sys.exit(rc)
